@@ -6,6 +6,13 @@ use crate::spec::Verdict;
 use serde_json::{Value, json};
 
 pub fn oracle(c: &FieldCase, obs: &mut Obs) -> Vec<Violation> {
+    oracle_with(c, obs, false)
+}
+
+/// `judge_undetermined`: also check faithfulness of accepted inputs whose verdict is
+/// Undetermined (done only in the deterministic grid, so that these signatures do not
+/// depend on the seed)
+pub fn oracle_with(c: &FieldCase, obs: &mut Obs, judge_undetermined: bool) -> Vec<Violation> {
     let mut out = Vec::new();
     let verdict = verdict_of(c);
     let res = parse_case(c);
@@ -16,28 +23,72 @@ pub fn oracle(c: &FieldCase, obs: &mut Obs) -> Vec<Violation> {
         obs.excluded("undetermined-verdict");
     }
     obs.sample(&format!("{}:{:?}", c.origin.split(':').next().unwrap_or(""), verdict), || json!({"field": c.ty, "content": c.content, "origin": c.origin, "accepted": res.is_ok()}));
-    let reason = if verdict == Verdict::MustReject { spec_of(&c.ty).g.reject_reason(&c.content) } else if c.content.contains('\r') { "crlf".to_string() } else { "in-format".to_string() };
+    let reason = if verdict == Verdict::MustReject {
+        spec_of(&c.ty).g.reject_reason(&c.content)
+    } else if c.content.contains('\r') {
+        "crlf".to_string()
+    } else {
+        "in-format".to_string()
+    };
     match (&res, verdict) {
         (Err(e), Verdict::MustAccept) => {
             if !e.is_panic() {
-                out.push(viol(format!("C05|{}|under-accept|{}", c.ty, reason), format!("documented-valid content {:?} rejected: {}", c.content, e.text())));
+                out.push(viol(
+                    format!("C05|{}|under-accept|{}", c.ty, reason),
+                    format!(
+                        "documented-valid content {:?} rejected: {}",
+                        c.content,
+                        e.text()
+                    ),
+                ));
             }
         }
         (Ok(_), Verdict::MustReject) => {
-            out.push(viol(format!("C05|{}|over-accept|{}", c.ty, reason), format!("content {:?} is outside the documented format ({}) but was accepted", c.content, reason)));
+            // fine-grained reasons (which documented part the content departs from) are judged in the
+            // deterministic grid only; the seeded sub-checks judge the cross-cutting classes
+            let cross_cutting = [
+                "nonascii",
+                "control-char",
+                "stray-cr",
+                "blank-line",
+                "empty",
+            ]
+            .contains(&reason.as_str());
+            if !judge_undetermined && !cross_cutting {
+                obs.excluded("over-accept with a part-level reason (judged in the grid sub-check)");
+            } else {
+                out.push(viol(
+                    format!("C05|{}|over-accept|{}", c.ty, reason),
+                    format!(
+                        "content {:?} is outside the documented format ({}) but was accepted",
+                        c.content, reason
+                    ),
+                ));
+            }
         }
         _ => {}
     }
     if let Ok(v) = &res {
         obs.class("accepted");
-        if verdict != Verdict::MustReject {
+        if verdict == Verdict::MustAccept
+            || (judge_undetermined && verdict == Verdict::Undetermined)
+        {
             // (for MustReject inputs the acceptance itself is the violation, reported above)
-            if let Err(d) = faithful(&c.content, v) {
-                let why = if crate::refs::has_long_number(&c.content) { "16digits".to_string() } else if verdict == Verdict::MustAccept { reason.clone() } else { "undetermined-input".to_string() };
+            if crate::refs::has_long_number(&c.content) {
+                obs.excluded("amount-beyond-f64-precision (C06 reports it)");
+            } else if let Err(d) = faithful(&c.content, v) {
+                let why = if verdict == Verdict::MustAccept {
+                    reason.clone()
+                } else {
+                    "undetermined-input".to_string()
+                };
                 out.push(viol(format!("C05|{}|unfaithful|{}", c.ty, why), d));
             }
         }
-        if c.origin == "valid" && verdict == Verdict::MustAccept {
+        if c.origin == "valid"
+            && verdict == Verdict::MustAccept
+            && !crate::refs::has_long_number(&c.content)
+        {
             if let Err(d) = components_exposed(&c.comps, &v.json) {
                 out.push(viol(format!("C05|{}|component-mismatch|valid", c.ty), d));
             }
@@ -56,13 +107,67 @@ pub fn run(ctx: &Ctx) {
     ctx.assume("faithfulness: to_swift_string content equals the input up to numeric formatting and line endings (refs::approx_eq)");
     let tys = concrete();
     let to_json = |c: &FieldCase| serde_json::to_value(c).unwrap();
-    ctx.run_generated("valid", tys.len(), ctx.n(600, 15000), 256, &|sh, src: &mut Src| gen_valid(tys[sh], src), &oracle, &to_json);
-    ctx.run_generated("nearmiss", tys.len(), ctx.n(2500, 60000), 256, &|sh, src: &mut Src| mutate(tys[sh], src), &oracle, &to_json);
-    ctx.run_generated("random", tys.len(), ctx.n(1200, 30000), 64, &|sh, src: &mut Src| random_content(tys[sh], src), &oracle, &to_json);
+    // deterministic grid (independent of VERIF_SEED): K fixed base contents per field x every part x every mutation class
+    let k = ctx.n(12, 60) as u64;
+    ctx.exhaustive("near-miss grid: per field type, K fixed valid base contents x every part x {lengthen 1/2/20, shorten, 16 substitutions at first/middle/last position, bad dates, bad amounts, bad BICs} + trailing data, extra/leading/blank lines, CRLF, empty, every single-character deletion");
+    ctx.run_enumerated(
+        "grid",
+        tys.len(),
+        &|sh| {
+            let ty = tys[sh];
+            let mut v = Vec::new();
+            for j in 0..k {
+                let data: Vec<u32> = (0..256)
+                    .map(|i| {
+                        crate::choice::splitmix(0xC05 ^ ((sh as u64) << 20) ^ (j << 10) ^ i) as u32
+                    })
+                    .collect();
+                let mut src = Src::new(&data);
+                let out = spec_of(ty).g.generate(&mut src);
+                v.push(FieldCase {
+                    ty: ty.to_string(),
+                    content: out.text.clone(),
+                    origin: "valid".into(),
+                    comps: out.comps.clone(),
+                });
+                v.extend(all_mutations(ty, &out));
+            }
+            v
+        },
+        &|c: &FieldCase, obs: &mut Obs| oracle_with(c, obs, true),
+        &to_json,
+    );
+    ctx.run_generated(
+        "valid",
+        tys.len(),
+        ctx.n(1500, 30000),
+        256,
+        &|sh, src: &mut Src| gen_valid(tys[sh], src),
+        &oracle,
+        &to_json,
+    );
+    ctx.run_generated(
+        "nearmiss",
+        tys.len(),
+        ctx.n(4000, 100000),
+        256,
+        &|sh, src: &mut Src| mutate(tys[sh], src),
+        &oracle,
+        &to_json,
+    );
+    ctx.run_generated(
+        "random",
+        tys.len(),
+        ctx.n(2500, 50000),
+        64,
+        &|sh, src: &mut Src| random_content(tys[sh], src),
+        &oracle,
+        &to_json,
+    );
 }
 
 pub fn replay(_ctx: &Ctx, _sub: &str, case: &Value) -> Vec<Violation> {
     let c: FieldCase = serde_json::from_value(case.clone()).expect("replay case");
     let mut obs = Obs::default();
-    oracle(&c, &mut obs)
+    oracle_with(&c, &mut obs, true)
 }
